@@ -47,7 +47,7 @@ Feed(ob, recs) == IF recs = <<>> THEN ob ELSE Feed(Obs(ob, Head(recs)), Tail(rec
 
 Entry(s, cur, readyAt, id) == [s |-> s, cur |-> cur, readyAt |-> readyAt, id |-> id]
 IsReady(e) == e.readyAt <= now
-QRec(q) == [i \in DOMAIN q |-> [id |-> q[i].id, s |-> q[i].s, cur |-> q[i].cur,
+QRec(q) == [i \in DOMAIN q |-> [id |-> q[i].id, s |-> q[i].s, cur |-> q[i].cur, r0 |-> IsReady(q[i]),
                                 left_us |-> IF IsReady(q[i]) THEN -1 ELSE q[i].readyAt - now]]
 BRec(b) == [i \in DOMAIN b |-> [id |-> b[i].id, s |-> b[i].s, cur |-> b[i].cur,
                                 serial |-> Cfg.scen[b[i].s].serial]]
